@@ -3,5 +3,5 @@ CONSTANTS
  NAngles = 8
  K = 4
 ACTION_CONSTRAINT Emit
-INVARIANTS ProperRotation QuatTwoWays FixedIsReversedMoving AxisAngle
+INVARIANTS ProperRotation QuatTwoWays FixedIsReversedMoving AxisAngle RelOK
 CHECK_DEADLOCK FALSE
